@@ -106,6 +106,21 @@ class CountingBytesIO(io.BytesIO):
         return super().read(n)
 
 
+class RecordingBytesIO(io.BytesIO):
+    """A real, fully featured BytesIO that records (offset, n) of every read:
+    used for the clean pre-pass, which must not depend on API discipline."""
+
+    def __init__(self, data: bytes = b"") -> None:
+        super().__init__(data)
+        self.calls: list = []
+
+    def read(self, n=-1):
+        off = self.tell()
+        v = super().read(n)
+        self.calls.append((off, len(v) if (n is None or n < 0) else n))
+        return v
+
+
 class SimSink:
     """Sequential write-only byte sink."""
 
